@@ -70,8 +70,17 @@ Fixpoint reads_e (st : state) (e : expr) {struct e} : list event :=
   | ReadCfg c => [(KRead, CCfg c)]
   end.
 
-Fixpoint reads_list (st : state) (l : list expr) : list event :=
-  match l with [] => [] | a :: r => reads_e st a ++ reads_list st r end.
+Definition reads_list (st : state) : list expr -> list event :=
+  fix go (l : list expr) : list event :=
+    match l with [] => [] | a :: r => reads_e st a ++ go r end.
+
+Definition reads_waccs (st : state) : list wacc -> list event :=
+  fix go (l : list wacc) : list event :=
+    match l with
+    | [] => []
+    | Point a :: r => reads_e st a ++ go r
+    | Interval lo hi :: r => reads_e st lo ++ reads_e st hi ++ go r
+    end.
 
 (** a tensor-valued actual (whole buffer, window, by-reference scalar) reads its index expressions only *)
 Definition reads_view (st : state) (e : expr) : list event :=
@@ -90,6 +99,17 @@ Definition reads_actual (st : state) (k : argkind) (e : expr) : list event :=
 Fixpoint reads_actuals (st : state) (formals : list (sym * argkind)) (es : list expr) : list event :=
   match formals, es with
   | (_, k) :: fr, e :: er => reads_actual st k e ++ reads_actuals st fr er
+  | _, _ => []
+  end.
+
+(** the shape expressions of tensor formals are evaluated by [bind_args] in the callee environment built
+    so far: their reads, in the same order *)
+Fixpoint reads_bind_args (formals : list (sym * argkind)) (actuals : list binding) (callee : state)
+  : list event :=
+  match formals, actuals with
+  | (x, k) :: fr, a :: ar =>
+      (match k with KTensor shape _ => reads_list callee shape | _ => [] end)
+      ++ reads_bind_args fr ar (bind_var x a callee)
   | _, _ => []
   end.
 
@@ -193,7 +213,8 @@ Fixpoint exec_fp (ord : list Z -> list Z) (d : nat) (sub : bool) (s : stmt) (st 
                   body callee;
           let (st', t) := r in
           Ok (with_env (s_env st) st',
-              tapp (tev (reads_actuals st formals args ++ reads_list callee preds)) t)
+              tapp (tev (reads_actuals st formals args ++ reads_bind_args formals acts (with_env [] st)
+                         ++ reads_list callee preds)) t)
       end
   end.
 
